@@ -381,3 +381,181 @@ pub mod fwd_attrs_no_handlers {
         }
     }
 }
+
+/// Query handlers whose response type is itself a framework / primitive type (`Binary`, `Response`, `String`, `Vec<u8>`,
+/// `Option<Binary>`): the caller still gets the JSON *encoding* of the returned value, never the raw value.
+pub mod query_returning_plain_types {
+    use super::*;
+    use sylvia::cw_std::Binary;
+
+    pub struct Raw;
+
+    #[entry_points]
+    #[contract]
+    impl Raw {
+        pub fn new() -> Self {
+            Self
+        }
+        #[sv::msg(instantiate)]
+        fn instantiate(&self, _ctx: InstantiateCtx) -> StdResult<Response> {
+            Ok(Response::new())
+        }
+        #[sv::msg(query)]
+        fn raw_bytes(&self, _ctx: QueryCtx) -> StdResult<Binary> {
+            Ok(Binary::from(vec![7u8, 7, 7]))
+        }
+        #[sv::msg(query)]
+        fn raw_bytes_result(&self, _ctx: QueryCtx, n: u8) -> Result<Binary, StdError> {
+            Ok(Binary::from(vec![n]))
+        }
+        #[sv::msg(query)]
+        fn raw_bytes_qualified(&self, _ctx: QueryCtx) -> StdResult<sylvia::cw_std::Binary> {
+            Ok(Binary::default())
+        }
+        #[sv::msg(query)]
+        fn a_response(&self, _ctx: QueryCtx) -> StdResult<Response> {
+            Ok(Response::new())
+        }
+        #[sv::msg(query)]
+        fn a_string(&self, _ctx: QueryCtx) -> StdResult<String> {
+            Ok(String::new())
+        }
+        #[sv::msg(query)]
+        fn some_bytes(&self, _ctx: QueryCtx) -> StdResult<Vec<u8>> {
+            Ok(vec![])
+        }
+        #[sv::msg(query)]
+        fn maybe_bytes(&self, _ctx: QueryCtx) -> StdResult<Option<Binary>> {
+            Ok(None)
+        }
+    }
+
+    pub mod raw_iface {
+        use super::*;
+
+        #[interface]
+        #[sv::custom(msg = sylvia::cw_std::Empty, query = sylvia::cw_std::Empty)]
+        pub trait RawIface {
+            type Error: From<StdError>;
+            #[sv::msg(query)]
+            fn iface_bytes(&self, ctx: QueryCtx) -> Result<Binary, Self::Error>;
+            #[sv::msg(query)]
+            fn iface_string(&self, ctx: QueryCtx, a: u32) -> Result<String, Self::Error>;
+        }
+    }
+}
+
+/// Order of the attributes that stay: a sylvia attribute in front of, and between, several foreign attributes (lint levels — the
+/// later one wins —, doc lines, cfg_attr) on the impl / trait and on handler methods; the re-emitted item keeps the written order.
+pub mod attr_order {
+    use super::*;
+
+    pub struct Ordered;
+
+    #[contract]
+    #[sv::msg_attr(exec, doc = "ordered-exec")]
+    #[deny(unused)]
+    #[allow(unused_variables)]
+    #[sv::msg_attr(query, doc = "ordered-query")]
+    /// first doc line after the sylvia attributes
+    /// second doc line
+    #[allow(clippy::needless_lifetimes)]
+    impl Ordered {
+        pub fn new() -> Self {
+            Self
+        }
+        #[sv::msg(instantiate)]
+        #[deny(unused)]
+        #[allow(unused_variables)]
+        fn instantiate(&self, ctx: InstantiateCtx, value: u32) -> StdResult<Response> {
+            Ok(Response::new())
+        }
+        /// doc one
+        #[sv::msg(exec)]
+        /// doc two
+        #[deny(unused)]
+        #[sv::attr(doc = "variant doc")]
+        #[allow(unused_variables)]
+        /// doc three
+        #[inline]
+        fn run(&self, ctx: ExecCtx, value: u32) -> StdResult<Response> {
+            Ok(Response::new())
+        }
+        #[sv::msg(query)]
+        #[deny(unused)]
+        #[allow(unused_variables)]
+        #[must_use]
+        fn ask(&self, ctx: QueryCtx, value: u32) -> StdResult<Resp> {
+            Ok(Resp { n: 0 })
+        }
+    }
+
+    pub mod ordered_iface {
+        use super::*;
+
+        #[interface]
+        #[sv::custom(msg = sylvia::cw_std::Empty, query = sylvia::cw_std::Empty)]
+        #[deny(unused)]
+        #[allow(unused_variables)]
+        /// trait doc after the sylvia attribute
+        #[allow(clippy::wrong_self_convention)]
+        pub trait OrderedIface {
+            type Error: From<StdError>;
+
+            #[sv::msg(exec)]
+            #[deny(unused)]
+            #[allow(unused_variables)]
+            /// trailing doc
+            fn poke(&self, ctx: ExecCtx, value: u32) -> Result<Response, Self::Error>;
+
+            /// leading doc
+            #[sv::msg(query)]
+            #[must_use]
+            #[allow(unused_variables)]
+            #[deny(unused_mut)]
+            fn peek(&self, ctx: QueryCtx, value: u32) -> Result<Resp, Self::Error>;
+        }
+    }
+}
+
+/// Argument attributes wrapped in `cfg_attr`: the compiler applies the inner attribute when the predicate holds, so the generated
+/// field must carry it exactly like a plainly written one (and must not when the predicate is false).
+pub mod cfg_attr_on_arguments {
+    use super::*;
+
+    pub struct Conditional;
+
+    #[contract]
+    impl Conditional {
+        pub fn new() -> Self {
+            Self
+        }
+        #[sv::msg(instantiate)]
+        fn instantiate(&self, _ctx: InstantiateCtx, #[cfg_attr(not(target_arch = "wasm32"), serde(default))] label: String, cap: u32) -> StdResult<Response> {
+            Ok(Response::new())
+        }
+        #[sv::msg(exec)]
+        fn transfer(
+            &self,
+            _ctx: ExecCtx,
+            to: String,
+            #[cfg_attr(not(target_arch = "wasm32"), serde(default))] memo: String,
+            #[cfg_attr(target_arch = "wasm32", serde(default))] never_on_host: u8,
+            #[cfg_attr(all(), doc = "always-on doc")] noted: u8,
+        ) -> StdResult<Response> {
+            Ok(Response::new())
+        }
+    }
+
+    pub mod conditional_iface {
+        use super::*;
+
+        #[interface]
+        #[sv::custom(msg = sylvia::cw_std::Empty, query = sylvia::cw_std::Empty)]
+        pub trait ConditionalIface {
+            type Error: From<StdError>;
+            #[sv::msg(exec)]
+            fn note(&self, ctx: ExecCtx, #[cfg_attr(not(target_arch = "wasm32"), serde(default))] memo: String) -> Result<Response, Self::Error>;
+        }
+    }
+}
